@@ -45,7 +45,8 @@ def check_reshuffle(ctx, res: Result):
         raise AnalysisError(f"{f}: signature / return shape changed")
     outs = []
     for e in rets[0].value.elts:
-        names = [x.id for x in ast.walk(e) if isinstance(x, ast.Name) and x.id not in ("tuple", "sorted", "list")]
+        # (through `new_f1 = tuple(sorted(g1))`-style temporaries: the accumulator is the list that is appended to)
+        names = [x.id for x in ast.walk(v.inline(e)) if isinstance(x, ast.Name) and x.id not in ("tuple", "sorted", "list")]
         outs.append(names[0] if len(names) == 1 else None)
     if None in outs:
         raise AnalysisError(f"{f}: returned pair not recognised")
@@ -66,7 +67,8 @@ def check_reshuffle(ctx, res: Result):
                         d2 = [n for n in walk_no_nested(fi.node) if isinstance(n, ast.Assign) and isinstance(n.targets[0], ast.Name) and n.targets[0].id == x.id]
                         txt += " " + " ".join(norm(y.value) for y in d2)
             inter = "intersection" in txt and all(p in txt for p in params)
-        res.check(ok and inter, "P-GUARDCAP", f, norm(defs[0]) if defs else g, g + ":init", f"{g} does not start as a copy of the intersection of the two hyperedges (common nodes must stay in both)", loc(fi, defs[0] if defs else fi.node))
+        empty = len(defs) == 1 and ((isinstance(defs[0].value, (ast.List, ast.Tuple, ast.Set)) and not defs[0].value.elts) or (isinstance(defs[0].value, ast.Call) and norm(defs[0].value.func) in ("list", "set") and not defs[0].value.args))
+        res.add("P-GUARDCAP", f, norm(defs[0]) if defs else g, g + ":init", "ok" if ok and inter else ("violation" if empty else "unknown"), "" if ok and inter else (f"{g} does not start as a copy of the intersection of the two hyperedges (common nodes must stay in both)" if empty else f"how {g} is initialised was not recognised"), loc(fi, defs[0] if defs else fi.node))
     # appends
     apps = [n for n in walk_no_nested(fi.node) if isinstance(n, ast.Call) and isinstance(n.func, ast.Attribute) and n.func.attr in ("append", "extend", "insert", "add") and isinstance(n.func.value, ast.Name) and n.func.value.id in outs]
     if not apps:
@@ -81,17 +83,21 @@ def check_reshuffle(ctx, res: Result):
         res.check(a.func.attr == "append" and len(a.args) == 1 and isinstance(a.args[0], ast.Name) and loop is not None and a.args[0].id == loop.target.id, "P-LINEAR", f, norm(a), g + ":element", "something other than the current residual node is appended (a node would be duplicated or invented)", loc(fi, a))
         # P-GUARDCAP: some governing condition is len(g) < len(paired f)
         caps = []
+        undecided_guard = False
         for i in v.enclosing_all(a, (ast.If,)):
-            for atom, _ in _atoms(i.test, True):
+            test_i = v.inline(i.test)
+            if not any(isinstance(x, ast.Compare) for x in ast.walk(test_i)):
+                undecided_guard = undecided_guard or any(isinstance(x, ast.Name) for x in ast.walk(test_i))
+            for atom, _ in _atoms(test_i, True):
                 if isinstance(atom, ast.Compare) and len(atom.ops) == 1:
-                    lab = _implied_branch(i.test, atom, True)
+                    lab = _implied_branch(test_i, atom, True)
                     if lab and v.cfg.branch_dominated(v.cfg.by_ast[id(i.test)], lab, aid):
                         l, op, r = atom.left, atom.ops[0], atom.comparators[0]
                         if isinstance(op, ast.Lt) and _resolve_len(v, l) == g:
                             caps.append(_resolve_len(v, r))
                         elif isinstance(op, ast.Gt) and _resolve_len(v, r) == g:
                             caps.append(_resolve_len(v, l))
-        res.check(pair[g] in caps, "P-GUARDCAP", f, norm(a), g + ":capacity", f"the append to {g} is not guarded by len({g}) < len({pair[g]}) (it is guarded by capacity of {caps or 'nothing'}): {g} can outgrow / undershoot the hyperedge it replaces", loc(fi, a))
+        res.add("P-GUARDCAP", f, norm(a), g + ":capacity", "ok" if pair[g] in caps else ("unknown" if undecided_guard and not caps else "violation"), "" if pair[g] in caps else f"the append to {g} is not guarded by len({g}) < len({pair[g]}) (it is guarded by capacity of {caps or 'nothing'}): {g} can outgrow / undershoot the hyperedge it replaces", loc(fi, a))
     # at most one append per iteration
     head = v.cfg.by_ast[id(loop)] if loop is not None else None
     for i, a in enumerate(apps):
